@@ -436,6 +436,81 @@ func runForeignListing(r *ev.Report, listing string, withID bool) {
 	}
 }
 
+// runAliasedListing: the owner is reached through another URL of its host (as /@alice
+// serves the actor whose id is /users/alice), while the URL that equals the owner's id
+// answers with a different document - one with another id of the same host, or one with no
+// id at all. A reference to that URL resolves to that other document, however the reference
+// is spelled (plain URL, {id}, {id,type}); only a reference through the alias resolves to the
+// owner.
+func runAliasedListing(r *ev.Report, listing string, other string) {
+	baseWorld()
+	uidrv.Reset()
+	var canonical, alias string
+	var ownerDoc, otherDoc M
+	if listing == "outbox" {
+		canonical, alias = h1+"/users/X", h1+"/@x"
+		ownerDoc = actor(canonical, "Aliased")
+		ownerDoc["outbox"] = canonical + "/outbox"
+		otherDoc = actor(h1+"/users/Y", "Somebody else")
+	} else {
+		canonical, alias = h1+"/notes/X", h1+"/n/x"
+		ownerDoc = note(canonical, "the aliased post")
+		ownerDoc["replies"] = canonical + "/replies"
+		otherDoc = note(h1+"/notes/Y", "another post")
+	}
+	put(otherDoc)
+	if other == "without-id" {
+		otherDoc = M{"type": otherDoc["type"], "name": "anonymous", "content": "anonymous", "published": old}
+	}
+	w.Put(alias, world.JSON(ownerDoc))
+	w.Put(canonical, world.JSON(otherDoc))
+	var values []any
+	var names, expect []string
+	refs := []struct {
+		name    string
+		ref     any
+		genuine bool
+	}{{"url", canonical, false}, {"stub", M{"id": canonical}, false}, {"stub-typed", M{"id": canonical, "type": ownerDoc["type"]}, false}, {"alias-url", alias, true}}
+	for i, ref := range refs {
+		var d M
+		if listing == "outbox" {
+			d = M{"type": "Announce", "id": fmt.Sprintf("%s/acts/aliased-%d", h1, i), "actor": ref.ref, "object": h1 + "/notes/N1", "published": old}
+		} else {
+			d = note(fmt.Sprintf("%s/notes/aliased-reply-%d", h1, i), "reply")
+			d["inReplyTo"] = ref.ref
+		}
+		put(d)
+		values = append(values, d["id"])
+		names = append(names, "reference-to-the-owners-id-which-serves-another-document:"+ref.name+"/url")
+		if ref.genuine {
+			expect = append(expect, "id:"+d["id"].(string))
+		} else {
+			expect = append(expect, "failure")
+		}
+	}
+	collID := ownerDoc[map[string]string{"outbox": "outbox", "replies": "replies"}[listing]].(string)
+	put(M{"type": "OrderedCollection", "id": collID, "totalItems": float64(len(values)), "orderedItems": values})
+	c := listingCase{Listing: listing + ":aliased-owner:" + other, Entries: names}
+	defer func() {
+		if x := recover(); x != nil {
+			r.Violation("listing:panic:"+listing, map[string]any{"case": c, "msg": fmt.Sprint(x)})
+		}
+	}()
+	for look := 0; look < 2; look++ {
+		item, ok := pub.New(alias, nil).(pub.Tangible)
+		if !ok || item.Children() == nil {
+			ev.Fatal("aliased owner %s has no listing", alias)
+		}
+		got, _, _ := item.Children().Harvest(uint(len(values)+2), 0)
+		r.Eval(1)
+		prefix := ""
+		if look == 1 {
+			prefix = "second-look:"
+		}
+		judgeListing(r, c, prefix, got, expect, names)
+	}
+}
+
 func runAuthor(r *ev.Report, ac authorCase, via string, n int) {
 	baseWorld()
 	uidrv.Reset()
@@ -481,6 +556,7 @@ func main() {
 		"outbox of actor O: 15 activity kinds (by owner: Announce/Like/Create, hosted elsewhere, owner embedded; impostors: same-host peer, foreign actor, missing/unfetchable actor, non-activity, peer named like the owner; forged owner copy from another host) x 4 representations "+
 			"(embedded, URL, stub{id}, stub{id,type}) + 404 + junk; replies of post Q: 16 reply kinds (genuine incl. other host / fragment / forged embedded parent; other parent, trailing slash, none, unfetchable, same path other host, tombstone, actor, foreign author, self-reply) x {embedded, URL}; "+
 			"every single entry, every ordered pair and (thorough) every ordered triple over a reduced set, inline and split across a remote page; 12 author cases (same/foreign host, embedded claims, missing ids on either side, unfetchable, two authors) directly and as an announced object; "+
+			"owners reached through an alias URL while the URL equal to their id serves another document (with another id, without id), referenced as URL, {id}, {id,type} and through the alias; "+
 			"listings served by another host (with and without an id) that embed entries claiming ids on the owner's host; entries behind a redirect from the owner's host to a forged or foreign document on another host; each listing position compared with ground truth, at the first look and again at a second look when everything is cached; distinct_nontrivial = listings containing at least one impostor")
 	if *ev.FlagReplay != "" {
 		var d struct {
@@ -496,7 +572,12 @@ func main() {
 				}
 			}
 		}
-		if strings.Contains(d.Case.Listing, "served-by-another-host") {
+		if strings.Contains(d.Case.Listing, "aliased-owner") {
+			for _, listing := range []string{"outbox", "replies"} {
+				runAliasedListing(r, listing, "with-another-id")
+				runAliasedListing(r, listing, "without-id")
+			}
+		} else if strings.Contains(d.Case.Listing, "served-by-another-host") {
 			for _, listing := range []string{"outbox", "replies"} {
 				runForeignListing(r, listing, true)
 				runForeignListing(r, listing, false)
@@ -531,6 +612,12 @@ func main() {
 		for _, withID := range []bool{true, false} {
 			runForeignListing(r, listing, withID)
 			r.Distinct(fmt.Sprint("foreign", listing, withID))
+		}
+	}
+	for _, listing := range []string{"outbox", "replies"} {
+		for _, other := range []string{"with-another-id", "without-id"} {
+			runAliasedListing(r, listing, other)
+			r.Distinct(fmt.Sprint("aliased", listing, other))
 		}
 	}
 	for _, e := range acts {
